@@ -276,11 +276,21 @@ def write_if_changed(path, content):
 
 
 def coq_files():
+    """every .v file of the development, except work in progress listed (one path or glob per line) in coq/WIP: such files are not part
+    of any check (not built, not scanned, no theorem of theirs is claimed) until they are taken off that list"""
+    import fnmatch
+    wip = []
+    try:
+        wip = [l.strip() for l in open(os.path.join(COQ, "WIP")) if l.strip() and not l.startswith("#")]
+    except OSError:
+        pass
     out = []
     for d, _, fs in os.walk(COQ):
         for f in sorted(fs):
             if f.endswith(".v"):
-                out.append(os.path.relpath(os.path.join(d, f), COQ))
+                rel = os.path.relpath(os.path.join(d, f), COQ)
+                if not any(fnmatch.fnmatch(rel, w) for w in wip):
+                    out.append(rel)
     return sorted(out)
 
 
